@@ -115,7 +115,9 @@ func runC12Server(c *checker, r *rng.R) {
 		mh.Put(s, echoSvc{s})
 	}
 	srv := verifhook.NewEnvelopeServer(binary.Default, mh)
-	cfg := func() wv.GenCfg { return wv.GenCfg{MaxDepth: 1 + r.Intn(3), MaxLen: r.Pick(0, 1, 3, 6), MaxBin: r.Pick(0, 3, 40, 300)} }
+	cfg := func() wv.GenCfg {
+		return wv.GenCfg{MaxDepth: 1 + r.Intn(3), MaxLen: r.Pick(0, 1, 3, 6), MaxBin: r.Pick(0, 3, 40, 300)}
+	}
 
 	// sequential requests; every response is retained (the slice itself and a copy) and looked at
 	// again after later requests
